@@ -21,7 +21,9 @@ MANIFEST = dict(
          'equation; the selection step of build() (pool offered to the selectors = candidates not explicit / seen / excluded; '
          'self.inputs = explicit once + the answer): for EVERY selector answer within the contract "members of the offered pool, '
          'none twice" the distinctness premise holds and the body is balanced (C06_balanced_selected), and the contract is needed '
-         '(C06_selection_contract_needed); partial liveness for ADA-only funds with a margin. Model tied to the code by exact slice '
+         '(C06_selection_contract_needed); liveness: what the selection must hand over for build() not to refuse (C06_live_after_selection), '
+         'refuted at full strength by a concrete wallet (C06_live_selection_request_refuted = known finding '
+         'C06-liveness-fee-of-selected-inputs) and decided on the implementation for ADA-only wallets with a clear margin. Model tied to the code by exact slice '
          'correspondence (incl. the offered pool and the contract evaluated on the real selectors\' answers, random state seeded per scenario); '
          'the ledger balance oracle is evaluated in Coq on the CBOR of the body that build() returned.',
     note='Trusted: Coq kernel+vm_compute; hand model Balance.v validated by differential runs; ledger rule as written in '
